@@ -497,6 +497,17 @@ func scenario(c *run.Ctx, idx int, fixed bool) {
 				cands = append(cands, cl.G.C(cl.G.B.Call(cl.W.Founder, params.TermRewardContract, big.NewInt(0), 500000, data, uint64(t)+600), "set-reward", "any"))
 			}
 		}
+		// every fourth block the miners choose a small block gas limit, so that candidates (and sub-txs of boxes) run into it
+		lim := uint64(0)
+		if bi >= 2 && r.Chance(1, 4) {
+			lim = uint64(r.Range(200000, 600000))
+		}
+		for _, n := range cl.Nodes {
+			n.GasLimit = lim
+		}
+		if lim != 0 {
+			c.Stat("blocks_with_small_gas_limit", 1)
+		}
 		c.WAL(map[string]interface{}{"scenario": idx, "block": bi, "seed": c.Seed, "fixed": fixed})
 		blk := checkStep(c, cl, t, cands)
 		if blk == nil {
